@@ -142,12 +142,21 @@ impl Scenario for BlockLockstep {
             }
         }
         let term = if focus_is_term { fop } else { rng.pick(&sm83::TERMINATORS) };
-        code.extend(sm83::encode(term, rng, false));
-        case.set("term", term as i64);
+        // boundary stratum: a fixed-bank block with no terminator whose last instruction ends at 0x3fff, so that execution
+        // would run on into whatever bank is mapped at 0x4000 (both engines must stop at the boundary)
+        let falls_through = !high && !focus_is_term && rng.chance(1, 12);
+        if !falls_through {
+            code.extend(sm83::encode(term, rng, false));
+        }
+        case.set("term", if falls_through { 0 } else { term as i64 });
+        case.set("falls_through", falls_through as i64);
         // placement
         let len = code.len();
         let (lo, hi) = if high { (0x4000usize, 0x8000usize) } else { (0x0000usize, 0x4000usize) };
         let addr = loop {
+            if falls_through {
+                break hi - len;
+            }
             let a = match rng.below(6) {
                 0 => hi - len,
                 1 => lo,
@@ -397,6 +406,9 @@ impl Scenario for BlockLockstep {
                                 ctx.cov.hit("probe.cache_hit_executions");
                             }
                             ctx.cov.mark("distinct", cell);
+                            if before.ip < 0x4000 && i.regs().ip == 0x4000 && case.get("falls_through") != 0 {
+                                ctx.cov.hit("probe.fixed_bank_block_ended_at_the_bank_boundary");
+                            }
                             ctx.cov.mark("encodings", fenc as u64);
                             ctx.cov.mark("terminator_kinds", sm83::terminator_kind(case.get("term") as u8) as u64);
                             // conditional outcome probe: taken iff pc != fallthrough
